@@ -172,8 +172,11 @@ def pairwise_screen(draw):
     val = st.one_of(st.sampled_from([0.5, 0.98, 1.0]), st.floats(min_value=0.0, max_value=1.0))
     rows = []
 
+    # sample names: plain, or differing only in letter case / surrounding blanks (distinct samples all the same)
+    look_alike = draw(st.sampled_from([None, None, ["hel", "HEL", "hel ", " Hel"]]))
+
     def row(s, ts, p):
-        rows.append({"s": "s%d" % s, "p": p, "t": ["ctl" if t == -1 else S.treat_name(t)[0] for t in ts], "d": [0.0 if t == -1 else S.treat_name(t)[1] for t in ts], "o": draw(val)})
+        rows.append({"s": look_alike[s] if look_alike else "s%d" % s, "p": p, "t": ["ctl" if t == -1 else S.treat_name(t)[0] for t in ts], "d": [0.0 if t == -1 else S.treat_name(t)[1] for t in ts], "o": draw(val)})
 
     for s in range(ns):
         for _ in range(draw(st.integers(1, 4))):
